@@ -977,6 +977,48 @@ def np_isfinite(it, x):
     return bool(np.isfinite(x))
 
 
+def np_isnan(it, x):
+    """REAL mode: symbolic numbers are finite reals (a NaN entry is excluded by the contract's precondition, stated as an
+    assumption); concrete values are tested for real"""
+    if is_z3(x):
+        it.assumptions_log.add("np.isnan of a symbolic number is False (inputs are finite reals; NaN entries are outside the contract)")
+        return False
+    if is_arr(x):
+        n = concrete_int(it.arr_len(x))
+        if n is None:
+            raise Unsupported("np.isnan on an array of symbolic length")
+        rd = it.arr_reader(x)
+        return np.array([bool(np_isnan(it, rd(i))) for i in range(n)], dtype=bool)
+    return bool(np.isnan(x))
+
+
+def np_interp(it, x, xp, fp, left=None, right=None):
+    """stated semantics of numpy.interp for strictly increasing xp of concrete length n >= 1: fp[0] (or `left`) before xp[0],
+    fp[-1] (or `right`) after xp[-1], the linear interpolant through (xp[i], fp[i]), (xp[i+1], fp[i+1]) in between"""
+    n = concrete_int(it.arr_len(xp))
+    if n is None or n < 1 or concrete_int(it.arr_len(fp)) != n:
+        raise Unsupported("np.interp with data points of symbolic length")
+    it.assumptions_log.add("numpy.interp(x, xp, fp, left, right): left for x < xp[0], right for x > xp[-1], piecewise linear through the points in between (xp increasing)")
+    rx, rf = it.arr_reader(xp), it.arr_reader(fp)
+    X = [to_real(rx(i)) for i in range(n)]
+    F = [to_real(rf(i)) for i in range(n)]
+    L = F[0] if left is None else to_real(left)
+    R = F[-1] if right is None else to_real(right)
+
+    def one(v):
+        v = to_real(v)
+        res = R  # v > X[-1]
+        res = ite(v == X[-1], F[-1], res)
+        for i in range(n - 2, -1, -1):
+            seg = F[i] + (F[i + 1] - F[i]) * (v - X[i]) / (X[i + 1] - X[i])
+            res = ite(z3.And(X[i] <= v, v < X[i + 1]), seg, res)
+        return ite(v < X[0], L, res)
+
+    if is_arr(x):
+        return it.elementwise(one, x)
+    return one(x)
+
+
 def np_isscalar(it, x):
     return is_z3(x) or isinstance(x, (int, float))
 
@@ -1101,7 +1143,7 @@ def np_linspace(it, a, b, num=50):
 NP = {
     "zeros": np_zeros, "ones": np_ones, "empty": np_empty, "full": np_full, "zeros_like": np_zeros_like, "ones_like": np_ones_like, "array": np_array,
     "sum": np_sum, "divide": np_divide, "minimum": np_minimum, "maximum": np_maximum, "clip": np_clip, "all": np_all, "any": np_any, "cumsum": np_cumsum,
-    "prod": np_prod, "product": np_prod, "isfinite": np_isfinite, "isscalar": np_isscalar, "exp": np_exp, "argsort": np_argsort, "argmax": np_argmax, "isclose": np_isclose,
+    "prod": np_prod, "product": np_prod, "isfinite": np_isfinite, "isscalar": np_isscalar, "exp": np_exp, "argsort": np_argsort, "argmax": np_argmax, "isnan": np_isnan, "interp": np_interp, "isclose": np_isclose,
     "less": np_less, "round": np_round, "linspace": np_linspace, "abs": lambda it, x: b_abs(it, x), "ceil": lambda it, x: to_real(b_ceil(it, x)) if is_z3(x) else float(math.ceil(x)),
 }
 
